@@ -77,7 +77,7 @@ TRUSTED_BASE = [
     "CPython float(str)/Decimal(str) (mass as float must equal float(decimal text); checked to be the nearest double with exact rationals)",
     "the oracle's independent re-reading of the raw NIST JSON and the embedded textbook 18-column layout",
     "harness/c01_anchor.py: the embedded textbook table (118 x Z, symbol, NIST spelling of the name, most abundant or — NIST SP 966, July 2018 — longest-lived isotope; Uut/Uup/Uus renames; D/T) that anchors the oracle and the theorems bare_default_textbook / anchor_agrees_with_srd144; typed in by hand, cross-checked against the SRD-144 bracket notation (9 elements) and compositions in Lean and in the oracle; for Pu…Ts (25 elements) it is the only source besides the repository's own build script",
-    "the raw SRD-144 JSON under raw_data/ is taken as NIST's word (a change to it that also contradicts the embedded table or the nuclear mass-excess bound is reported, a self-consistent change of individual mass digits is not detectable)",
+    "the raw SRD-144 JSON under raw_data/ is NIST's word AS PINNED: harness/data/refpins.json.gz (tools/mk_refpins.py) holds the oracle's own parsed reading of that file at the pinned commit; a row on which the working tree's raw file departs from the pin is judged against the pin, so a consistent edit of raw file and generated table is reported with the nuclide as input (a raw file that changed while the library still returns the pinned values raises no alarm)",
 ]
 ASSUMPTIONS = [
     "source-derived logic: `strict` is a bool (truthiness of other objects is outside the evaluator's subset, reported as such, never defaulted); exceptions are matched by class NAME against the "
@@ -160,7 +160,37 @@ def saw_bracket(el):
     return int(m.group(1)) if m else None
 
 
+def load_refpin(section):
+    """the oracles' own reading of the published tables at the pinned commit (tools/mk_refpins.py), or None when absent"""
+    import gzip
+
+    from pathlib import Path
+
+    p = Path(__file__).resolve().parent / "data/refpins.json.gz"
+    if not p.exists():
+        return None
+    return json.loads(gzip.open(p).read())[section]
+
+
 def nist_expectations():
+    """nist_expectations_raw() with every row on which the working tree's raw file departs from the pinned reading of SRD-144 replaced
+    by the PINNED row (the property names NIST's table, not whatever the checkout's raw_data says today); rows only the working tree
+    has are kept as they are.  `repinned` rows are counted in the evidence."""
+    exp, elements, conflicts = nist_expectations_raw()
+    pin = load_refpin("srd144")
+    REPINNED.clear()
+    if pin is not None:
+        for k, v in pin.items():
+            if exp.get(k) != tuple(v):
+                REPINNED.append((k, exp.get(k), tuple(v)))
+                exp[k] = tuple(v)
+    return exp, elements, conflicts
+
+
+REPINNED = []
+
+
+def nist_expectations_raw():
     """Independent re-reading of the raw NIST file: label -> (Z, E, name, A, mass string).
 
     Nothing here comes from the repository's build script or the shipped table: names, the longest-lived isotope of
@@ -369,6 +399,9 @@ def run(ctx: Ctx) -> Outcome:
 
     sideeffects.exercise(out)  # header writers / table printers / comparison reports first: whatever they leave behind is seen by the sweep below
     T = Tables()
+    out.distribution["reference:srd144_rows_judged_against_the_pin_instead_of_the_working_tree_raw_file"] = len(REPINNED)
+    if load_refpin("srd144") is None:
+        out.notes.append("harness/data/refpins.json.gz absent: the working tree's raw SRD-144 file is the only reference")
     exp, elements = T.exp, T.elements
     cases = []  # (acc, strict, arg, expected_species_or_None, tag)
 
